@@ -465,4 +465,486 @@ theorem runSys_proj (envs : Nat → Env N) (i : Nat) :
       simp [setCache, runHist]
     · simp [setCache, hji, Ne.symm hji]
 
+/-! ## a certificate world that changes, an explicit key storage
+
+  Specification vocabulary (no mention of the implementation):
+  * `ChainC R E Signed T d o` — a chain from `o` towards the anchor of `E` whose links satisfy `R`, in the world of `E`
+    AS IT IS NOW, that may end early at a link to a key `T` vouches for (`T kn k`: "the certificate named `kn`, with key
+    `k`, is trusted from before") — `d` certificates are retrieved now;
+  * `TrustedD R cfgs Signed w T h` — what the storage objects may vouch for after the history `h` that started in the
+    world `w` with `T`: what `T` vouched for, and every `(name, key)` such that, at the time of some `validate` event
+    of an instance holding that storage object, the network answered the certificate Interest for the name with a
+    certificate of that name and key that had a chain (in this same sense, at that time) to the anchor of that instance;
+  * `worldsOf w h` — every state the network went through; `KeyStable ws now` — a name denotes one key: whatever was
+    served under a name in one of the states `ws` carries the key bits of what is served under it now.
+-/
+
+/-- the link relation the validator itself uses -/
+def AllowedR (allowed : N → N → Except PyErr Bool) : N → N → Prop := fun a b => allowed a b = .ok true
+
+inductive ChainC (R : N → N → Prop) (E : Env N) (Signed : Key → Obj N → Prop) (T : N → Key → Prop) :
+    Nat → Obj N → Prop where
+  | anchor (o : Obj N) :
+      o.keyLoc = some E.anchorName → R o.name E.anchorName →
+      Verifies Signed E.anchorKey o → ChainC R E Signed T 0 o
+  | step (o : Obj N) (kn : N) (c : Obj N) (k : Key) (d : Nat) :
+      o.keyLoc = some kn → kn ≠ E.anchorName → R o.name kn →
+      E.world (certInterest kn) = some (.data c) → c.name = kn → c.content = some k →
+      Verifies Signed k o → ChainC R E Signed T d c → ChainC R E Signed T (d + 1) o
+  | cached (o : Obj N) (kn : N) (k : Key) :
+      o.keyLoc = some kn → kn ≠ E.anchorName → R o.name kn →
+      T kn k → Verifies Signed k o → ChainC R E Signed T 0 o
+
+omit [DecidableEq N] in
+theorem ChainC.mono {R R' : N → N → Prop} {E : Env N} {Signed : Key → Obj N → Prop} {T T' : N → Key → Prop}
+    (hR : ∀ a b, R a b → R' a b) (hT : ∀ n k, T n k → T' n k) {d : Nat} {o : Obj N}
+    (h : ChainC R E Signed T d o) : ChainC R' E Signed T' d o := by
+  induction h with
+  | anchor o hk ha hv => exact .anchor o hk (hR _ _ ha) hv
+  | step o kn c k d hk hn ha hw hcn hcc hv _ ih => exact .step o kn c k d hk hn (hR _ _ ha) hw hcn hcc hv ih
+  | cached o kn k hk hn ha ht hv => exact .cached o kn k hk hn (hR _ _ ha) (hT _ _ ht) hv
+
+omit [DecidableEq N] in
+/-- a chain that relies on nothing from before is a chain of the static specification, and conversely -/
+theorem chainC_false_iff (E : Env N) (Signed : Key → Obj N → Prop) (d : Nat) (o : Obj N) :
+    ChainC (AllowedR E.allowed) E Signed (fun _ _ => False) d o ↔ ChainD E Signed d o := by
+  constructor
+  · intro h
+    induction h with
+    | anchor o hk ha hv => exact .anchor o hk ha hv
+    | step o kn c k d hk hn ha hw hcn hcc hv _ ih => exact .step o kn c k d hk hn ha hw hcn hcc hv ih
+    | cached o kn k _ _ _ ht _ => exact ht.elim
+  · intro h
+    induction h with
+    | anchor o hk ha hv => exact .anchor o hk ha hv
+    | step o kn c k d hk hn ha hw hcn hcc hv _ ih => exact .step o kn c k d hk hn ha hw hcn hcc hv ih
+
+omit [DecidableEq N] in
+theorem chainC_of_chainD (E : Env N) (Signed : Key → Obj N → Prop) (T : N → Key → Prop) (d : Nat) (o : Obj N)
+    (h : ChainD E Signed d o) : ChainC (AllowedR E.allowed) E Signed T d o :=
+  ChainC.mono (fun _ _ h => h) (fun _ _ h => h.elim) ((chainC_false_iff E Signed d o).mpr h)
+
+/-- the storage vouches only for what `T` vouches for -/
+def Trusts (st : Cache N) (T : N → Key → Prop) : Prop := ∀ n k, cacheLoad st n = some k → T n k
+
+theorem trusts_nil (T : N → Key → Prop) : Trusts ([] : Cache N) T := by
+  intro n k h; simp [cacheLoad] at h
+
+/-- soundness relative to the storage: an acceptance has a chain in the world as it is now that may end at a key the
+    storage held when the validation began -/
+theorem validate_sound_c (E : Env N) (Signed : Key → Obj N → Prop) (hu : Unforgeable E Signed) (T : N → Key → Prop) :
+    ∀ fuel st o, Trusts st T → (validate E fuel st o).verdict = some .accept →
+      ∃ d, ChainC (AllowedR E.allowed) E Signed T d o := by
+  intro fuel
+  induction fuel with
+  | zero => intro st o _ h; simp [validate] at h
+  | succ f ih =>
+    intro st o hinv h
+    rw [validate] at h
+    split at h
+    · simp at h
+    · rename_i kn hk
+      split at h
+      · simp at h
+      · simp at h
+      · rename_i ha
+        split at h
+        · rename_i hn
+          simp only [Option.some.injEq] at h
+          have hv := verifySig_accept h
+          subst hn
+          exact ⟨0, .anchor o hk ha ⟨hv.1, hu _ _ hv.2⟩⟩
+        · rename_i hn
+          split at h
+          · rename_i k hl
+            simp only [Option.some.injEq] at h
+            have hv := verifySig_accept h
+            exact ⟨0, .cached o kn k hk hn ha (hinv kn k hl) ⟨hv.1, hu _ _ hv.2⟩⟩
+          · split at h
+            · simp at h
+            · rename_i c hex
+              obtain ⟨hw, hcn⟩ := (express_certInterest E kn c).mp hex
+              simp only [] at h
+              split at h
+              · simp at h
+              · rename_i hacc
+                split at h
+                · simp at h
+                · rename_i k hcc
+                  simp only [Option.some.injEq] at h
+                  have hv := verifySig_accept h
+                  obtain ⟨d, hd⟩ := ih st c hinv hacc
+                  exact ⟨d + 1, .step o kn c k d hk hn ha hw hcn hcc ⟨hv.1, hu _ _ hv.2⟩ hd⟩
+              · simp at h
+              · simp at h
+
+/-- what a validation adds to the storage: keys of certificates that were retrievable under exactly that name during
+    this validation and had a chain (relative to the storage at the beginning) -/
+theorem validate_cache_new (E : Env N) (Signed : Key → Obj N → Prop) (hu : Unforgeable E Signed) (T : N → Key → Prop) :
+    ∀ fuel st o, Trusts st T → ∀ n k, cacheLoad (validate E fuel st o).cache n = some k →
+      cacheLoad st n = some k ∨
+        ∃ c, E.world (certInterest n) = some (.data c) ∧ c.name = n ∧ c.content = some k ∧
+          ∃ d, ChainC (AllowedR E.allowed) E Signed T d c := by
+  intro fuel
+  induction fuel with
+  | zero => intro st o _ n k h; left; simpa [validate] using h
+  | succ f ih =>
+    intro st o hinv n k h
+    generalize hres : validate E (f + 1) st o = res at h
+    rw [validate] at hres
+    split at hres
+    · subst hres; exact Or.inl h
+    · rename_i kn hk
+      split at hres
+      · subst hres; exact Or.inl h
+      · subst hres; exact Or.inl h
+      · split at hres
+        · subst hres; exact Or.inl h
+        · split at hres
+          · subst hres; exact Or.inl h
+          · split at hres
+            · subst hres; exact Or.inl h
+            · rename_i c hex
+              obtain ⟨hw, hcn⟩ := (express_certInterest E kn c).mp hex
+              have hrec := ih st c hinv n k
+              simp only [] at hres
+              split at hres
+              · subst hres; exact hrec h
+              · rename_i hacc
+                split at hres
+                · subst hres; exact hrec h
+                · rename_i k' hcc
+                  subst hres
+                  simp only [cacheLoad_save] at h
+                  split at h
+                  · rename_i hnn
+                    subst hnn
+                    cases h
+                    exact Or.inr ⟨c, hw, hcn, hcc, validate_sound_c E Signed hu T f st c hinv hacc⟩
+                  · exact hrec h
+              · subst hres; exact hrec h
+              · subst hres; exact hrec h
+
+/-- the storage holds no key other than the one the certificate retrievable under that name now carries -/
+def CacheAgrees (E : Env N) (st : Cache N) : Prop :=
+  ∀ n k c, cacheLoad st n = some k → E.world (certInterest n) = some (.data c) → c.name = n → c.content = some k
+
+theorem cacheAgrees_nil (E : Env N) : CacheAgrees E [] := by
+  intro n k c h; simp [cacheLoad] at h
+
+/-- completeness from ANY storage that does not contradict the world as it is now -/
+theorem validate_complete_agree (E : Env N) (Signed : Key → Obj N → Prop) (hc : Correct E Signed) :
+    ∀ d o, ChainD E Signed d o → ∀ fuel st, CacheAgrees E st → d < fuel →
+      (validate E fuel st o).verdict = some .accept := by
+  intro d o h
+  induction h with
+  | anchor o hk ha hv =>
+    intro fuel st _ hf
+    obtain ⟨f, rfl⟩ : ∃ f, fuel = f + 1 := ⟨fuel - 1, by omega⟩
+    rw [validate]
+    simp [hk, ha, verifySig_of_verifies hv.1 (hc _ _ hv.2)]
+  | step o kn c k d hk hn ha hw hcn hcc hv _ ih =>
+    intro fuel st hinv hf
+    obtain ⟨f, rfl⟩ : ∃ f, fuel = f + 1 := ⟨fuel - 1, by omega⟩
+    have hex := (express_certInterest E kn c).mpr ⟨hw, hcn⟩
+    rw [validate]
+    simp only [hk, ha, hn, if_false]
+    cases hl : cacheLoad st kn with
+    | some k' =>
+      have hcc' := hinv kn k' c hl hw hcn
+      rw [hcc] at hcc'
+      cases hcc'
+      simp [verifySig_of_verifies hv.1 (hc _ _ hv.2)]
+    | none =>
+      have := ih f st hinv (by omega)
+      simp [hex, this, hcc, verifySig_of_verifies hv.1 (hc _ _ hv.2)]
+
+/-! ### histories -/
+
+omit [DecidableEq N] in
+theorem unforgeable_env (c : Cfg N) (Signed : Key → Obj N → Prop) (w : World N)
+    (h : ∀ k o, c.crypto k o = true → Signed k o) : Unforgeable (c.env w) Signed := h
+
+omit [DecidableEq N] in
+theorem correct_env (c : Cfg N) (Signed : Key → Obj N → Prop) (w : World N)
+    (h : ∀ k o, Signed k o → c.crypto k o = true) : Correct (c.env w) Signed := h
+
+/-- one `validate` event of instance configuration `c` in the world `w`: what the storage objects may vouch for
+    afterwards -/
+def trustStep (R : N → N → Prop) (c : Cfg N) (Signed : Key → Obj N → Prop) (w : World N)
+    (T : Nat → N → Key → Prop) : Nat → N → Key → Prop :=
+  fun s n k => T s n k ∨ (c.store = .mem s ∧ ∃ x, w (certInterest n) = some (.data x) ∧ x.name = n ∧
+    x.content = some k ∧ ∃ d, ChainC R (c.env w) Signed (T s) d x)
+
+def TrustedD (R : Nat → N → N → Prop) (cfgs : Nat → Cfg N) (Signed : Key → Obj N → Prop) :
+    World N → (Nat → N → Key → Prop) → List (Event N) → (Nat → N → Key → Prop)
+  | _, T, [] => T
+  | _, T, .world w' :: r => TrustedD R cfgs Signed w' T r
+  | w, T, .validate j _ _ :: r => TrustedD R cfgs Signed w (trustStep (R j) (cfgs j) Signed w T) r
+
+/-- nothing is trusted from before (a fresh process) -/
+def noTrust : Nat → N → Key → Prop := fun _ _ _ => False
+
+/-- what the storage object behind a `StoreRef` may vouch for -/
+def trustOf (T : Nat → N → Key → Prop) : StoreRef → N → Key → Prop
+  | .empty => fun _ _ => False
+  | .mem s => T s
+
+/-- every state of the network during a history, in order (the last one is the state after it) -/
+def worldsOf : World N → List (Event N) → List (World N)
+  | w, [] => [w]
+  | w, .world w' :: r => w :: worldsOf w' r
+  | w, .validate _ _ _ :: r => worldsOf w r
+
+/-- a name denotes one key: whatever one of the states `ws` served under a name carries the key bits of what `now`
+    serves under it -/
+def KeyStable (ws : List (World N)) (now : World N) : Prop :=
+  ∀ w ∈ ws, ∀ n c c', w (certInterest n) = some (.data c) → c.name = n →
+    now (certInterest n) = some (.data c') → c'.name = n → c.content = c'.content
+
+/-- the link relation of every instance -/
+def allowedOf (cfgs : Nat → Cfg N) : Nat → N → N → Prop := fun j => AllowedR (cfgs j).allowed
+
+def StoresTrusted (st : DState N) (T : Nat → N → Key → Prop) : Prop := ∀ s, Trusts (st.stores s) (T s)
+
+theorem trusts_loadStore (st : DState N) (T : Nat → N → Key → Prop) (h : StoresTrusted st T) (r : StoreRef) :
+    Trusts (loadStore st r) (trustOf T r) := by
+  cases r with
+  | empty => exact trusts_nil _
+  | mem s => exact h s
+
+omit [DecidableEq N] in
+theorem chainC_trustOf_mem {R : N → N → Prop} {E : Env N} {Signed : Key → Obj N → Prop} {T : Nat → N → Key → Prop}
+    {r : StoreRef} {s : Nat} (hr : r = .mem s) {d : Nat} {o : Obj N}
+    (h : ChainC R E Signed (trustOf T r) d o) : ChainC R E Signed (T s) d o := by
+  subst hr; exact h
+
+/-- the invariant of the storage objects is kept by every event -/
+theorem storesTrusted_step (cfgs : Nat → Cfg N) (Signed : Key → Obj N → Prop)
+    (hu : ∀ i k o, (cfgs i).crypto k o = true → Signed k o) (st : DState N) (T : Nat → N → Key → Prop)
+    (h : StoresTrusted st T) (j f : Nat) (o : Obj N) :
+    StoresTrusted (stepD cfgs st (.validate j f o)) (trustStep (allowedOf cfgs j) (cfgs j) Signed st.world T) := by
+  intro s n k hl
+  simp only [stepD] at hl
+  cases hst : (cfgs j).store with
+  | empty =>
+    rw [hst] at hl
+    exact Or.inl (h s n k hl)
+  | mem s' =>
+    rw [hst] at hl
+    simp only [saveStore, setCache] at hl
+    split at hl
+    · rename_i hss
+      subst hss
+      have ht := trusts_loadStore st T h (cfgs j).store
+      rcases validate_cache_new ((cfgs j).env st.world) Signed (hu j) _ f _ o ht n k hl with h0 | ⟨c, hw, hcn, hcc, d, hd⟩
+      · rw [hst] at h0
+        exact Or.inl (h s n k h0)
+      · exact Or.inr ⟨hst, c, hw, hcn, hcc, d, chainC_trustOf_mem hst hd⟩
+    · exact Or.inl (h s n k hl)
+
+theorem storesTrusted_run (cfgs : Nat → Cfg N) (Signed : Key → Obj N → Prop)
+    (hu : ∀ i k o, (cfgs i).crypto k o = true → Signed k o) :
+    ∀ (h : List (Event N)) (st : DState N) (T : Nat → N → Key → Prop), StoresTrusted st T →
+      StoresTrusted (runD cfgs st h) (TrustedD (allowedOf cfgs) cfgs Signed st.world T h) := by
+  intro h
+  induction h with
+  | nil => intro st T hT; simpa [runD, TrustedD] using hT
+  | cons e r ih =>
+    intro st T hT
+    cases e with
+    | world w => exact ih ⟨w, st.stores⟩ T hT
+    | validate j f o =>
+      have := ih _ _ (storesTrusted_step cfgs Signed hu st T hT j f o)
+      simpa [runD, TrustedD, stepD] using this
+
+omit [DecidableEq N] in
+/-- the trust relation only grows along a history … -/
+theorem trustedD_mono_T (R : Nat → N → N → Prop) (cfgs : Nat → Cfg N) (Signed : Key → Obj N → Prop) :
+    ∀ (h : List (Event N)) (w : World N) (T : Nat → N → Key → Prop) s n k, T s n k → TrustedD R cfgs Signed w T h s n k := by
+  intro h
+  induction h with
+  | nil => intro w T s n k ht; exact ht
+  | cons e r ih =>
+    intro w T s n k ht
+    cases e with
+    | world w' => exact ih w' T s n k ht
+    | validate j f o => exact ih w _ s n k (Or.inl ht)
+
+omit [DecidableEq N] in
+/-- … and is monotone in the link relations and in what was trusted before -/
+theorem trustedD_mono (R R' : Nat → N → N → Prop) (cfgs : Nat → Cfg N) (Signed : Key → Obj N → Prop)
+    (hR : ∀ j a b, R j a b → R' j a b) :
+    ∀ (h : List (Event N)) (w : World N) (T T' : Nat → N → Key → Prop), (∀ s n k, T s n k → T' s n k) →
+      ∀ s n k, TrustedD R cfgs Signed w T h s n k → TrustedD R' cfgs Signed w T' h s n k := by
+  intro h
+  induction h with
+  | nil => intro w T T' hT s n k ht; exact hT s n k ht
+  | cons e r ih =>
+    intro w T T' hT s n k ht
+    cases e with
+    | world w' => exact ih w' T T' hT s n k ht
+    | validate j f o =>
+      refine ih w _ _ ?_ s n k ht
+      intro s n k hs
+      rcases hs with h0 | ⟨hst, x, hw, hxn, hxc, d, hd⟩
+      · exact Or.inl (hT s n k h0)
+      · exact Or.inr ⟨hst, x, hw, hxn, hxc, d, ChainC.mono (hR j) (hT s) hd⟩
+
+omit [DecidableEq N] in
+theorem worldsOf_head_mem (w : World N) (h : List (Event N)) : w ∈ worldsOf w h := by
+  induction h generalizing w with
+  | nil => simp [worldsOf]
+  | cons e r ih =>
+    cases e with
+    | world w' => simp [worldsOf]
+    | validate j f o => simpa [worldsOf] using ih w
+
+omit [DecidableEq N] in
+/-- everything a storage object may vouch for was served, under that name and with that key, in some state of the
+    network during the history -/
+theorem trustedD_served (R : Nat → N → N → Prop) (cfgs : Nat → Cfg N) (Signed : Key → Obj N → Prop) (Q : N → Key → Prop) :
+    ∀ (h : List (Event N)) (w : World N) (T : Nat → N → Key → Prop), (∀ s n k, T s n k → Q n k) →
+      (∀ w' ∈ worldsOf w h, ∀ n k x, w' (certInterest n) = some (.data x) → x.name = n → x.content = some k → Q n k) →
+      ∀ s n k, TrustedD R cfgs Signed w T h s n k → Q n k := by
+  intro h
+  induction h with
+  | nil => intro w T hT _ s n k ht; exact hT s n k ht
+  | cons e r ih =>
+    intro w T hT hQ s n k ht
+    cases e with
+    | world w' =>
+      exact ih w' T hT (fun w'' hm => hQ w'' (by simp [worldsOf, hm])) s n k ht
+    | validate j f o =>
+      refine ih w _ ?_ (fun w'' hm => hQ w'' (by simpa [worldsOf] using hm)) s n k ht
+      intro s n k hs
+      rcases hs with h0 | ⟨_, x, hw, hxn, hxc, _⟩
+      · exact hT s n k h0
+      · exact hQ w (by simpa [worldsOf] using worldsOf_head_mem w r) n k x hw hxn hxc
+
+theorem runD_world_last (cfgs : Nat → Cfg N) :
+    ∀ (h : List (Event N)) (st : DState N), (runD cfgs st h).world ∈ worldsOf st.world h := by
+  intro h
+  induction h with
+  | nil => intro st; simp [runD, worldsOf]
+  | cons e r ih =>
+    intro st
+    cases e with
+    | world w => simpa [runD, worldsOf, stepD] using Or.inr (ih ⟨w, st.stores⟩)
+    | validate j f o => simpa [runD, worldsOf, stepD] using ih (stepD cfgs st (.validate j f o))
+
+/-- every key in a storage object after a history was in it before or was served, under that name, in some state of
+    the network during the history (no hypothesis on the signature scheme) -/
+theorem stores_served (cfgs : Nat → Cfg N) (Q : N → Key → Prop) :
+    ∀ (h : List (Event N)) (st : DState N), (∀ s n k, cacheLoad (st.stores s) n = some k → Q n k) →
+      (∀ w' ∈ worldsOf st.world h, ∀ n k x, w' (certInterest n) = some (.data x) → x.name = n → x.content = some k → Q n k) →
+      ∀ s n k, cacheLoad ((runD cfgs st h).stores s) n = some k → Q n k := by
+  intro h
+  induction h with
+  | nil => intro st h0 _ s n k hl; exact h0 s n k hl
+  | cons e r ih =>
+    intro st h0 hQ s n k hl
+    cases e with
+    | world w =>
+      exact ih ⟨w, st.stores⟩ h0 (fun w'' hm => hQ w'' (by simp [worldsOf, hm])) s n k hl
+    | validate j f o =>
+      refine ih (stepD cfgs st (.validate j f o)) ?_ (fun w'' hm => hQ w'' (by simpa [worldsOf, stepD] using hm)) s n k hl
+      intro s n k hs
+      simp only [stepD] at hs
+      cases hst : (cfgs j).store with
+      | empty => rw [hst] at hs; exact h0 s n k hs
+      | mem s' =>
+        rw [hst] at hs
+        simp only [saveStore, setCache] at hs
+        split at hs
+        · rename_i hss
+          subst hss
+          rcases cached_origin_aux ((cfgs j).env st.world) f _ o n k hs with h1 | ⟨_, x, hw, hxn, hxc⟩
+          · rw [hst] at h1; exact h0 s n k h1
+          · exact hQ st.world (worldsOf_head_mem st.world _) n k x hw hxn hxc
+        · exact h0 s n k hs
+
+/-- under `KeyStable`, storages that vouch only for served keys do not contradict the world as it is now -/
+theorem cacheAgrees_of_stable (E : Env N) (ws : List (World N)) (hst : KeyStable ws E.world) (st : Cache N)
+    (h : ∀ n k, cacheLoad st n = some k →
+      ∃ w ∈ ws, ∃ x, w (certInterest n) = some (.data x) ∧ x.name = n ∧ x.content = some k) :
+    CacheAgrees E st := by
+  intro n k c hl hw hcn
+  obtain ⟨w, hm, x, hxw, hxn, hxc⟩ := h n k hl
+  rw [← hst w hm n x c hxw hxn hw hcn, hxc]
+
+/-! ### isolation -/
+
+/-- the events that can touch the storage object `s` or the network -/
+def touches (cfgs : Nat → Cfg N) (s : Nat) : Event N → Bool
+  | .world _ => true
+  | .validate i _ _ => decide ((cfgs i).store = .mem s)
+
+theorem runD_filter (cfgs : Nat → Cfg N) (s : Nat) :
+    ∀ (h : List (Event N)) (st1 st2 : DState N), st1.world = st2.world → st1.stores s = st2.stores s →
+      (runD cfgs st1 h).world = (runD cfgs st2 (h.filter (touches cfgs s))).world ∧
+      (runD cfgs st1 h).stores s = (runD cfgs st2 (h.filter (touches cfgs s))).stores s := by
+  intro h
+  induction h with
+  | nil => intro st1 st2 hw hs; exact ⟨hw, hs⟩
+  | cons e r ih =>
+    intro st1 st2 hw hs
+    cases e with
+    | world w =>
+      simp only [List.filter, touches, runD]
+      exact ih _ _ rfl hs
+    | validate i f o =>
+      by_cases hst : (cfgs i).store = .mem s
+      · have ht : touches cfgs s (.validate i f o) = true := by simp [touches, hst]
+        simp only [List.filter, ht, runD]
+        refine ih _ _ hw ?_
+        simp [stepD, validateD, hst, saveStore, setCache, loadStore, hw, hs]
+      · have ht : touches cfgs s (.validate i f o) = false := by simp [touches, hst]
+        simp only [List.filter, ht, runD]
+        refine ih _ _ hw ?_
+        rw [← hs]
+        simp only [stepD]
+        cases hc : (cfgs i).store with
+        | empty => rfl
+        | mem s' =>
+          have : s ≠ s' := by intro he; subst he; exact hst hc
+          simp [saveStore, setCache, this]
+
+/-- the state of the network after a history depends on its `world` events only -/
+def isWorld : Event N → Bool
+  | .world _ => true
+  | .validate _ _ _ => false
+
+theorem runD_world_only (cfgs : Nat → Cfg N) :
+    ∀ (h : List (Event N)) (st1 st2 : DState N), st1.world = st2.world →
+      (runD cfgs st1 h).world = (runD cfgs st2 (h.filter isWorld)).world := by
+  intro h
+  induction h with
+  | nil => intro st1 st2 hw; exact hw
+  | cons e r ih =>
+    intro st1 st2 hw
+    cases e with
+    | world w => simp only [List.filter, isWorld, runD]; exact ih _ _ rfl
+    | validate i f o => simp only [List.filter, isWorld, runD]; exact ih _ _ hw
+
+/-! ### refinement: no `world` event, one storage object per instance -/
+
+def staticEvents (h : List (Nat × Nat × Obj N)) : List (Event N) := h.map fun s => .validate s.1 s.2.1 s.2.2
+
+theorem runD_static (cfgs : Nat → Cfg N) (hpriv : ∀ i, (cfgs i).store = .mem i) (w : World N) :
+    ∀ (h : List (Nat × Nat × Obj N)) (cs : Nat → Cache N),
+      (runD cfgs ⟨w, cs⟩ (staticEvents h)).stores = runSys (fun i => (cfgs i).env w) cs h ∧
+      (runD cfgs ⟨w, cs⟩ (staticEvents h)).world = w ∧
+      traceD cfgs ⟨w, cs⟩ (staticEvents h) = traceSys (fun i => (cfgs i).env w) cs h := by
+  intro h
+  induction h with
+  | nil => intro cs; simp [staticEvents, runD, runSys, traceD, traceSys]
+  | cons x r ih =>
+    intro cs
+    obtain ⟨i, f, o⟩ := x
+    have := ih (setCache cs i (validate ((cfgs i).env w) f (cs i) o).cache)
+    simp only [staticEvents, List.map_cons, runD, runSys, traceD, traceSys, stepD, validateD, hpriv i, loadStore,
+      saveStore] at this ⊢
+    exact ⟨this.1, this.2.1, by rw [this.2.2]⟩
+
 end Ndn.Cascade
